@@ -1651,3 +1651,17 @@ func ifaceMeasureIter(i *Iter) int {
 //@   requires pj.Strings != nil
 //@   ensures len: implies(result1 == nil, len(result0) == int(length))
 //@   safe
+
+// Every key and string value is read through stringByteAt: the bytes handed out are exactly the `length` bytes at
+// `offset` of the buffer the STRINGBUFBIT flag selects (the message when clear, the string buffer when set), and an
+// error is returned exactly when that range does not lie inside the selected buffer. Verified on its own (not used
+// as a call-site summary, so no other proof depends on it).
+//@ func (*ParsedJson).stringByteAt variant content
+//@   props C02 C16 C05
+//@   requires pj.Strings != nil && len(pj.Message) < 1<<47 && len(pj.Strings.B) < 1<<47
+//@   ensures okmsg: implies(offset&STRINGBUFBIT == 0, iff(result1 == nil, length <= uint64(len(pj.Message)) && offset <= uint64(len(pj.Message))-length))
+//@   ensures okbuf: implies(offset&STRINGBUFBIT != 0, iff(result1 == nil, length <= uint64(len(pj.Strings.B)) && offset&STRINGBUFMASK <= uint64(len(pj.Strings.B))-length))
+//@   ensures frommsg: implies(result1 == nil && offset&STRINGBUFBIT == 0, len(result0) == int(length) && forall(0, int(length), func(k int) bool { return result0[k] == pj.Message[int(offset)+k] }))
+//@   ensures frombuf: implies(result1 == nil && offset&STRINGBUFBIT != 0, len(result0) == int(length) && forall(0, int(length), func(k int) bool { return result0[k] == pj.Strings.B[int(offset&STRINGBUFMASK)+k] }))
+//@   ensures noresult: implies(result1 != nil, len(result0) == 0)
+//@   safe
